@@ -268,9 +268,11 @@ seq_t dtw_distance(seq_t *s1, idx_t l1,
         ec = ec_next;
         // Deal with Psi-relaxation in last column
         if (settings->psi_1e != 0 && minj == l2 && l1 - 1 - i <= settings->psi_1e) {
+            // Index of the cell in the last column (curidx can be stale if that cell
+            // was skipped because of max_step or pruning)
+            curidx = i1 * length + l2 - skip;
             assert(!(settings->window == 0 || settings->window == l2) || (i1 + 1)*length - 1 == curidx);
             if (dtw[curidx] < psi_shortest) {
-                // curidx is the last value
                 psi_shortest = dtw[curidx];
             }
         }
@@ -511,9 +513,11 @@ seq_t dtw_distance_ndim(seq_t *s1, idx_t l1,
         ec = ec_next;
         // Deal with Psi-relaxation in last column
         if (settings->psi_1e != 0 && minj == l2 && l1 - 1 - i <= settings->psi_1e) {
+            // Index of the cell in the last column (curidx can be stale if that cell
+            // was skipped because of max_step or pruning)
+            curidx = i1 * length + l2 - skip;
             assert(!(settings->window == 0 || settings->window == l2) || (i1 + 1)*length - 1 == curidx);
             if (dtw[curidx] < psi_shortest) {
-                // curidx is the last value
                 psi_shortest = dtw[curidx];
             }
         }
@@ -737,9 +741,11 @@ seq_t dtw_distance_euclidean(seq_t *s1, idx_t l1,
         ec = ec_next;
         // Deal with Psi-relaxation in last column
         if (settings->psi_1e != 0 && minj == l2 && l1 - 1 - i <= settings->psi_1e) {
+            // Index of the cell in the last column (curidx can be stale if that cell
+            // was skipped because of max_step or pruning)
+            curidx = i1 * length + l2 - skip;
             assert(!(settings->window == 0 || settings->window == l2) || (i1 + 1)*length - 1 == curidx);
             if (dtw[curidx] < psi_shortest) {
-                // curidx is the last value
                 psi_shortest = dtw[curidx];
             }
         }
@@ -972,9 +978,11 @@ seq_t dtw_distance_ndim_euclidean(seq_t *s1, idx_t l1,
         ec = ec_next;
         // Deal with Psi-relaxation in last column
         if (settings->psi_1e != 0 && minj == l2 && l1 - 1 - i <= settings->psi_1e) {
+            // Index of the cell in the last column (curidx can be stale if that cell
+            // was skipped because of max_step or pruning)
+            curidx = i1 * length + l2 - skip;
             assert(!(settings->window == 0 || settings->window == l2) || (i1 + 1)*length - 1 == curidx);
             if (dtw[curidx] < psi_shortest) {
-                // curidx is the last value
                 psi_shortest = dtw[curidx];
             }
         }
